@@ -33,7 +33,7 @@ def sample_inputs(rng, n):
     rows = []
     while len(rows) < n:
         s = L.rand_tokens(rng, 4, 200 if rng.random() < 0.1 else 40)
-        enc = rng.choice(['sq', 'dqmin', 'dqsp', 'dqall', 'bq'])
+        enc = rng.choice(['sq', 'dqmin', 'dqsp', 'dqall', 'dqbs', 'bq'])
         if enc == 'sq':
             s = [c for c in s if c != 'SQ']
         if enc == 'bq':
@@ -49,8 +49,8 @@ def run(ck, replay=None):
     quick = ck.tier == 'quick'
     rng = random.Random(ck.seed)
     ck.cov['rule'] = ('TLC enumerates every string s of <= 3 characters over a 14-symbol alphabet (quotes, backslash, parentheses, #, ;, |, '
-                      'blank, tab, CR, LF, non-ASCII; thorough: 21 symbols with $ ~ { } [ %, and <= 4 characters over 8 symbols), encodes it with the spec\'s five encoders (single quote; double quote '
-                      'minimal / with \\s\\t\\r\\n / backslash before every character; %(..)), places the literal as a statement argument and '
+                      'blank, tab, CR, LF, non-ASCII; thorough: 21 symbols with $ ~ { } [ %, and <= 4 characters over 8 symbols), encodes it with the spec\'s six encoders (single quote; double quote '
+                      'minimal / with \\s\\t\\r\\n / backslash before every other character / backslash before every character itself, raw blanks and line feeds included; %(..)), places the literal as a statement argument and '
                       'as an assigned expression value, and checks that the transcribed lexer (preParser expression-first, parseStatement, '
                       'parseExpression, parseString, parseStringInfix with escape flag and parenthesis depth) yields exactly s in one '
                       'statement; the exported table (text, expected value) is executed by the real interpreter: `vx <literal>` prints the '
